@@ -75,6 +75,54 @@ Proof. vm_compute. auto. Qed.
 Definition ent_tbl (caller_locks : lockset) := mkTable []
   [mkFunc "p.T.helper" false false false [("p.T.mu", Ex)]; mkFunc "p.T.Pub" true false false []]
   [mkCall "p.T.helper" "p.T.Pub" caller_locks true false "frozen"] [] [].
+(* inferred policies (Race.v 3b): the policy names only the mutex.  The repaired shape's data field gets GuardedBy mu
+   by inference and the table is accepted; the defective shape (writer under RLock) admits no discipline and stays
+   rejected; a DECLARED policy that does not hold is not rescued by a discipline that could have been inferred. *)
+Definition only_mu : policy := [(("httpcluster.Runner", "mu"), SyncTyped)].
+Lemma ex_inferred_guarded :
+  inferred only_mu mini_fixed = [(("httpcluster.Runner", "currentEntries"), GuardedBy mu)] /\
+  table_ok (effective only_mu mini_fixed) [] mini_fixed = true.
+Proof. vm_compute. auto. Qed.
+Lemma ex_no_discipline_no_inference :
+  inferred only_mu mini_broken = [] /\ table_ok (effective only_mu mini_broken) [] mini_broken = false.
+Proof. vm_compute. auto. Qed.
+Lemma ex_declared_is_authoritative :
+  table_ok (effective ((("httpcluster.Runner", "currentEntries"), CtorOnly) :: only_mu) mini_fixed) [] mini_fixed = false.
+Proof. vm_compute. auto. Qed.
+(* a renamed / new constructor-only field and a new mutex: CtorOnly and SyncTyped are inferred; the same field with a
+   write through a shared reference and no lock is not *)
+Definition ren_tbl (late_write : bool) := mkTable
+  [mkField "p.T" "lifecycle" TPlain; mkField "p.T" "extraMu" TSync]
+  [mkFunc "p.New" true false true []; mkFunc "p.T.Run" true false false []] []
+  ([mkSite "p.T" "lifecycle" "p.New" Wr [] false PreCtor 1 [] "" "frozen";
+    mkSite "p.T" "lifecycle" "p.T.Run" Rd [] true PreNone 1 [] "" "frozen";
+    mkSite "p.T" "extraMu" "p.T.Run" Use [] true PreNone 1 [] "Lock" "frozen";
+    mkSite "p.T" "extraMu" "p.T.Run" Use [("p.T.extraMu", Ex)] true PreNone 2 [] "Unlock" "frozen"] ++
+   (if late_write then [mkSite "p.T" "lifecycle" "p.T.Run" Wr [] true PreNone 2 [] "" "frozen"] else [])) [].
+Lemma ex_renamed_fields_inferred :
+  inferred [] (ren_tbl false) = [(("p.T", "lifecycle"), CtorOnly); (("p.T", "extraMu"), SyncTyped)] /\
+  table_ok (effective [] (ren_tbl false)) [] (ren_tbl false) = true /\
+  inferred [] (ren_tbl true) = [(("p.T", "extraMu"), SyncTyped)] /\
+  table_ok (effective [] (ren_tbl true)) [] (ren_tbl true) = false.
+Proof. vm_compute. auto. Qed.
+
+(* a helper that releases a lock its caller took (audit M11): the extractor cannot follow it, so the table is rejected.
+   The same table with the Unlock inside the function that locked is accepted. *)
+Definition unl_tbl (helper_unlocks : bool) := mkTable
+  [mkField "p.T" "mu" TSync; mkField "p.T" "x" TPlain]
+  [mkFunc "p.T.Pub" true false false []; mkFunc "p.T.helper" false false false [("p.T.mu", Ex)]]
+  [mkCall "p.T.helper" "p.T.Pub" [("p.T.mu", Ex)] true false "frozen"]
+  [mkSite "p.T" "mu" "p.T.Pub" Use [] true PreNone 1 [] "Lock" "frozen";
+   (if helper_unlocks
+    then mkSite "p.T" "mu" "p.T.helper" Use [] true PreNone 1 [] "Unlock" "frozen"
+    else mkSite "p.T" "mu" "p.T.Pub" Use [("p.T.mu", Ex)] true PreNone 2 [] "Unlock" "frozen");
+   (* the access the caller makes AFTER the helper returned: recorded as still under the lock *)
+   mkSite "p.T" "x" "p.T.Pub" Wr [("p.T.mu", Ex)] true PreNone 1 [] "" "frozen"] [].
+Lemma ex_unlock_in_helper_rejected :
+  table_ok [(("p.T", "mu"), SyncTyped); (("p.T", "x"), GuardedBy "p.T.mu")] [] (unl_tbl false) = true /\
+  table_ok [(("p.T", "mu"), SyncTyped); (("p.T", "x"), GuardedBy "p.T.mu")] [] (unl_tbl true) = false.
+Proof. vm_compute. auto. Qed.
+
 Lemma ex_entry_certificate :
   table_ok [] [] (ent_tbl [("p.T.mu", Ex)]) = true /\ table_ok [] [] (ent_tbl [("p.T.mu", Sh)]) = false
   /\ table_ok [] [] (ent_tbl []) = false.
